@@ -563,6 +563,23 @@ Proof.
   - apply S2. right. split; [reflexivity|]. intros E. apply in_paths_of in Hp. rewrite E in Hp. contradiction.
   - intros c Hc. apply S2. auto.
 Qed.
+(* A message = a LIST of nodes handled by one AddMPTNodes call: [add_nodes] folds the per-node restore over it and stops at
+   the first node that errors (undecodable, non-canonical), KEEPING the effect of the accepted prefix in both the database
+   and the pool — this is what the code does: restoreNode persists every node's own private batch before the next node is
+   looked at.  A failing message therefore preserves the invariant (Inv0: everything the trie needs below what is stored is
+   stored or requested, nothing else is; G: nothing requested is stored) and loses nothing that was stored. *)
+Theorem failed_message_keeps_invariant fuel b s :
+  fuel_ok fuel -> Forall genuine b -> Good s -> snd (add_nodes true fuel T b s) = true ->
+  Good (fst (add_nodes true fuel T b s)) /\
+  (forall c, stored (store s) c = true -> stored (store (fst (add_nodes true fuel T b s))) c = true).
+Proof.
+  intros Hf Hg Gs _. split; [apply add_nodes_good; assumption|].
+  unfold add_nodes. destruct (synced s); [auto|].
+  destruct (add_items_spec fuel Hf b (store s) (pool s) Hg (g_inv _ Gs) (g_g _ Gs)) as (_ & _ & M).
+  destruct (add_items true fuel T b (store s, pool s)) as [[R Q] err]. simpl in *.
+  destruct err; simpl; exact M.
+Qed.
+
 End Trie.
 
 (* data whose hash was not requested changes nothing (whatever it is, in either version of the code) *)
